@@ -159,8 +159,61 @@ def reproducibility(ctx, env):
     return n, nt
 
 
+def flat_data():
+    """Uninformative data: nearly every prior sample is accepted, so every batch contributes linear draws."""
+    import astropy.units as u
+    from thejoker.data import RVData
+
+    t = 55000 + np.array([0.0, 11.5, 23.25, 40.0])
+    return RVData(t, np.array([1.0, -2.0, 0.5, 0.25]) * u.km / u.s, np.full(4, 5000.0) * u.km / u.s)
+
+
+CROSS_PROCESS = r"""
+import sys, warnings, hashlib, os
+warnings.filterwarnings("ignore")
+import logging; logging.disable(logging.WARNING)
+import numpy as np, astropy.units as u
+from thejoker.prior import JokerPrior
+from thejoker.data import RVData
+from thejoker.thejoker import TheJoker
+prior = JokerPrior.default(P_min=1*u.day, P_max=100*u.day, sigma_K0=300*u.km/u.s, sigma_v=100*u.km/u.s)
+h = hashlib.sha256()
+for gl in (False, True):
+    s = prior.sample(size=8, generate_linear=gl, rng=np.random.default_rng(3))
+    for c in sorted(s.par_names):
+        h.update(c.encode()); h.update(np.ascontiguousarray(np.asarray(s[c].value if hasattr(s[c], "value") else s[c], float)).tobytes())
+t = 55000 + np.array([0.0, 11.5, 23.25, 40.0])
+data = RVData(t, np.array([1.0, -2.0, 0.5, 0.25]) * u.km / u.s, np.full(4, 5000.0) * u.km / u.s)
+post = TheJoker(prior, rng=np.random.default_rng(5)).rejection_sample(data, 24, in_memory=True)
+for c in sorted(post.par_names):
+    h.update(np.ascontiguousarray(np.asarray(post[c].value, float)).tobytes())
+print("DIGEST", h.hexdigest())
+"""
+
+
+def cross_process(ctx):
+    """Equal seeds in DIFFERENT interpreter processes (different string-hash salts) must give identical results."""
+    procs = []
+    for hs in ("1", "2", "3"):
+        env = dict(os.environ, PYTHONHASHSEED=hs, PYTHONPATH=ctx.overlay)
+        procs.append(subprocess.Popen(["/venv/bin/python", "-c", CROSS_PROCESS], env=env, stdout=subprocess.PIPE, stderr=subprocess.PIPE, text=True, cwd=ctx.scratch))
+    digests = []
+    for p in procs:
+        out, err = p.communicate(timeout=600)
+        d = [l.split()[1] for l in out.splitlines() if l.startswith("DIGEST")]
+        digests.append(d[0] if d else "FAILED:" + err[-200:])
+    case = dict(family="repro", path="prior.sample + rejection by count in 3 processes with PYTHONHASHSEED 1,2,3")
+    if any(d.startswith("FAILED") for d in digests):
+        ctx.fail("predicate", "C10:repro", f"cross-process run failed: {digests}", case=case)
+    elif len(set(digests)) != 1:
+        ctx.fail("predicate", "C10:repro", "equal seeds give different prior / posterior samples in different interpreter processes (results depend on the per-process hash salt)", case=case)
+    return 3
+
+
 def multipool_repro(ctx, env):
     import schwimmbad
+
+    env = dict(env, data=flat_data())
 
     case = dict(family="repro", path="rejection MultiPool(2) n_batches=4")
     outs = []
@@ -255,6 +308,7 @@ def run(ctx):
     env = setup(ctx)
     n_eval, nt = reproducibility(ctx, env)
     n_eval += multipool_repro(ctx, env)
+    n_eval += cross_process(ctx)
     terms, kept = stream_cases(ctx, env)
     n_eval += len(terms)
     nt += len(terms)
@@ -275,7 +329,7 @@ def run(ctx):
     return ctx.finish(
         rule="every entry point x option combination in PATHS (8 sampler paths incl. prior samples requested by count, prior.sample with/without linear "
         "parameters) run with equal seeds under two different GLOBAL seeds and with a different seed; a 2-process pool vs serial with equal batching; "
-        "3 multi-call scenarios recording the spawn protocol; plus the static effect scan (1 obligation). Non-trivial = path produced identical "
+        "the same seeded computation in 3 interpreter processes with different hash salts; 3 multi-call scenarios recording the spawn protocol; plus the static effect scan (1 obligation). Non-trivial = path produced identical "
         "non-empty output for equal seeds",
         assumptions=["numpy's SeedSequence.spawn contract: children with distinct spawn keys are independent streams",
                      "pymc.draw(random_seed=Generator) derives all its randomness from that generator",
